@@ -172,6 +172,16 @@ def main(ctx):
             for rel, lang in slice_:
                 cases.append(family.Case(corpus.read(rel), lang, cd, {'kind': 'sweep', 'file': rel}))
     ctx.extra['sweep_options'] = len(opts)
+    # the full sweep (every add/remove/force option of the class x 4 values) on two fixed generated programs
+    fixed_c = layout.render(gen_c.fixed_program(2), random.Random(7), 'C', dict(p_cmt=0.05))[0].encode()
+    cpp_toks = []
+    for i in range(len(gen_cpp.SNIPPETS)):
+        cpp_toks += gen_cpp.tokens_of(gen_cpp.SNIPPETS[i], '%d' % i)
+    fixed_cpp = layout.render(cpp_toks, random.Random(8), 'CPP', dict(p_cmt=0.05))[0].encode()
+    for o in iarf_ws_options():
+        for v in ('ignore', 'add', 'remove', 'force'):
+            cases.append(family.Case(fixed_c, 'C', {o['name']: v}, {'kind': 'sweep-fixed', 'file': 'fixed:c'}))
+            cases.append(family.Case(fixed_cpp, 'CPP', {o['name']: v}, {'kind': 'sweep-fixed', 'file': 'fixed:cpp'}))
     # (b) mutated corpus files
     nmut = 2500 if quick else 60000
     small = [f for f in files if os.path.getsize(os.path.join(corpus.input_root(), f[0])) < 12000]
